@@ -573,9 +573,15 @@ def _r6_dispatch(ctx):
     def scenario():
         alive, log, hooks = {}, [], {}
 
+        refs = {}
+
         def ref(a, k):
+            # weakref.ref(x): ONE reference object per live referent (CPython hands the same basic reference back, and references
+            # to the same live referent compare and hash equal)
             t = a[0]
-            return PyFunc(lambda a2, k2: t if alive.get(id(t), True) else None, "weakref")
+            if id(t) not in refs:
+                refs[id(t)] = PyFunc(lambda a2, k2: t if alive.get(id(t), True) else None, "weakref")
+            return refs[id(t)]
 
         def rec(name, bound):
             def f(a, k):
@@ -592,8 +598,11 @@ def _r6_dispatch(ctx):
                 return None
             return PyFunc(f, name)
 
-        def method(name, recv):
-            fobj = rec(name, True)
+        shared_funcs = {}
+
+        def method(name, recv, same_function=False):
+            # same_function: two objects of ONE class -- their bound methods share the underlying function object
+            fobj = shared_funcs.setdefault(name, rec(name, True)) if same_function else rec(name, True)
             return Obj(f"bound method {name}", {"__func__": fobj, "__self__": recv, "__call__": PyFunc(lambda a, k: fobj.f([recv] + list(a), k), name)}, closed=True)
 
         def weak_method(a, k):
@@ -652,6 +661,24 @@ def _r6_dispatch(ctx):
         ctx.violated(r6, call_m, "Callables dispatch after a receiver was collected", f"the dispatch raises {e.exc_name}: a collected model breaks the next backend switch", expected="live subscribers called, dead ones skipped")
     except errs as e:
         ctx.unrecognised(r6, cal, "Callables history 1", f"not interpretable: {type(e).__name__}: {e}")
+    # ---- history 1b: two objects of ONE class subscribe the same method (the same function object); one of them is collected
+    try:
+        w, alive, log, hooks, method, function = scenario()
+        M1, M2, M3 = Obj("model1"), Obj("model2"), Obj("model3")
+        cb = w.new(cal, [], {})
+        for c in (method("_precompute", M1, True), method("_precompute", M2, True), method("_precompute", M3, True)):
+            w.call_method(cb, "append", [c])
+        w.call_instance(cb, [X], {"key": Y})
+        judge("Callables: three objects of one class, all alive", list(log), [entry("_precompute", "model1"), entry("_precompute", "model2"), entry("_precompute", "model3")], call_m)
+        alive[id(M2)] = False
+        for rnd in ("first", "second"):
+            del log[:]
+            w.call_instance(cb, [X], {"key": Y})
+            judge(f"Callables: three objects of one class, the second collected ({rnd} dispatch afterwards)", list(log), [entry("_precompute", "model1"), entry("_precompute", "model3")], call_m)
+    except RaisedInFragment as e:
+        ctx.violated(r6, call_m, "Callables dispatch, objects of one class", f"the dispatch raises {e.exc_name}", expected="the live objects refreshed")
+    except errs as e:
+        ctx.unrecognised(r6, cal, "Callables history 1b", f"not interpretable: {type(e).__name__}: {e}")
     # ---- history 2: an EARLIER callback of the same dispatch makes a later receiver go away
     try:
         w, alive, log, hooks, method, function = scenario()
